@@ -491,7 +491,7 @@ fn main() {
             install_panic_hook();
             let mut p = prng::Prng::new(seed_from_env());
             for _ in 0..args.get(2).and_then(|s| s.parse().ok()).unwrap_or(10) {
-                let src = gen::const_arith_program(&mut p);
+                let src = if args.get(3).map(|s| s == "scaled").unwrap_or(false) { gen::scaled_program(&mut p) } else { gen::const_arith_program(&mut p) };
                 let a = analyse(&src, &mut p);
                 let r = guarded(|| compile_src(&src, "main", build_consts(&a.consts, &[], 0), Opts { register: false, dedup: true }, false));
                 let (o, _) = outcome_of(r);
